@@ -65,7 +65,18 @@ def _g_inv_size(c, k, mu, sigma_squared, team, rank):
     return 1.0 / len(team)
 
 
+def _g_mu_dep(c, k, mu, sigma_squared, team, rank):
+    return 1.0 / (1.0 + abs(mu) / c)
+
+
+def _g_team_sigma(c, k, mu, sigma_squared, team, rank):
+    # uses the members of the team object the model passes (their tau-inflated sigmas)
+    return max(p.sigma for p in team) / c
+
+
 GAMMAS = {
+    "mu_dep": _g_mu_dep,
+    "team_sigma": _g_team_sigma,
     "zero": _g_zero,
     "one": _g_one,
     "fifty": _g_fifty,
